@@ -20,6 +20,8 @@ import SymbolVerif.Properties.C03
 import SymbolVerif.Proofs.Codec.EmissionClass
 import SymbolVerif.Proofs.Codec.EmissionDesRender
 import SymbolVerif.Proofs.Codec.EmissionDesClass
+import SymbolVerif.Proofs.Codec.EmissionDesConvClass
+import SymbolVerif.Proofs.Codec.EmissionFactory
 namespace SymbolVerif.C15
 open SymbolVerif SymbolVerif.Codec SymbolVerif.Bytes
 
@@ -175,6 +177,62 @@ theorem emitted_deserialize_decode (S : Schema) (T : String → Bytes → Bytes)
   simp only [hfind, hconc, Bool.false_eq_true, if_false] at hdec'
   exact emittedDeserialize_of_dec hwf hwgd hfind (recN_dec_ne_none S T n) hdec'
 
+/-! #### the converse: the emitted `deserialize` accepts only what the interpreter accepts
+
+Which Python failures the semantics of the emitted program (EmissionDes.lean) models as errors: a nested
+`T.deserialize` / factory raising (`Rec.dec` failing, which includes an enum value outside the enum and a reserved
+member with another value); `ArrayHelpers.get_bytes` asked for more bytes than the view holds; `read_array*` meeting an
+element of size <= 0 or, with an accessor, elements out of order; `read_variable_size_elements` meeting an element whose
+aligned size exceeds the view; the `assert` of a reserved member; `.size` of `None`. Not errors, as in Python: a slice
+past the end of the buffer (`buffer[:n]`, `buffer[n:]`, `buffer[a:b]` clamp -- `pyTake`, `pyDrop`, `pySlice`, negative
+bounds counting from the end), `int.from_bytes` of a slice shorter than the width (`decInt` of what is there). The
+interpreter refuses arrays of more than `maxCount` = 100000 elements (`Err.unsupported`: its modelled domain); Python
+has no such limit, and that is the only disagreement. -/
+
+/-- if the emitted `deserialize` returns `v`, the interpreter decodes `v` from the same bytes, or refuses the bytes as
+    outside its modelled domain -/
+theorem emitted_deserialize_sound (S : Schema) (T : String → Bytes → Bytes) (rec : Rec) (hwf : WF S = true)
+    (hwgd : WFGD S = true) (ty : String) (d : StructDef) (hfind : S.find ty = some (.struct d))
+    (hnn : ∀ t b v, rec.dec t b = .ok v → v ≠ .none)
+    (cls : String) (payload : Bytes) (v : Val) (hem : emittedDeserialize S T rec cls d payload = .ok v) :
+    decConcrete S T rec cls d payload = .ok v ∨ decConcrete S T rec cls d payload = .error .unsupported :=
+  emittedDeserialize_sound hwf hwgd hfind hnn hem
+
+/-- on every byte string inside the interpreter's domain the emitted `deserialize` and the interpreter agree: the one
+    returns `v` exactly when the other does -/
+theorem emitted_deserialize_iff (S : Schema) (T : String → Bytes → Bytes) (rec : Rec) (hwf : WF S = true)
+    (hwgd : WFGD S = true) (ty : String) (d : StructDef) (hfind : S.find ty = some (.struct d))
+    (hnn : ∀ t b v, rec.dec t b = .ok v → v ≠ .none) (cls : String) (payload : Bytes)
+    (hdom : decConcrete S T rec cls d payload ≠ .error .unsupported) (v : Val) :
+    emittedDeserialize S T rec cls d payload = .ok v ↔ decConcrete S T rec cls d payload = .ok v := by
+  constructor
+  · intro hem
+    rcases emittedDeserialize_sound hwf hwgd hfind hnn hem with h | h
+    · exact h
+    · exact absurd h hdom
+  · exact emittedDeserialize_of_dec hwf hwgd hfind hnn
+
+/-- the emitted `deserialize` accepts exactly the byte strings the interpreter accepts (inside its domain) -/
+theorem emitted_deserialize_accepts_iff (S : Schema) (T : String → Bytes → Bytes) (rec : Rec) (hwf : WF S = true)
+    (hwgd : WFGD S = true) (ty : String) (d : StructDef) (hfind : S.find ty = some (.struct d))
+    (hnn : ∀ t b v, rec.dec t b = .ok v → v ≠ .none) (cls : String) (payload : Bytes)
+    (hdom : decConcrete S T rec cls d payload ≠ .error .unsupported) :
+    (∃ v, emittedDeserialize S T rec cls d payload = .ok v) ↔ (∃ v, decConcrete S T rec cls d payload = .ok v) :=
+  ⟨fun ⟨v, h⟩ => ⟨v, (emitted_deserialize_iff S T rec hwf hwgd ty d hfind hnn cls payload hdom v).mp h⟩,
+   fun ⟨v, h⟩ => ⟨v, (emitted_deserialize_iff S T rec hwf hwgd ty d hfind hnn cls payload hdom v).mpr h⟩⟩
+
+/-- with the recursion closed by fuel: `decode` of a concrete class and its emitted `deserialize` agree -/
+theorem emitted_deserialize_decode_iff (S : Schema) (T : String → Bytes → Bytes) (hwf : WF S = true) (hwgd : WFGD S = true)
+    (ty : String) (d : StructDef) (hfind : S.find ty = some (.struct d)) (hconc : d.abstract = false)
+    (n : Nat) (payload : Bytes) (hdom : (recN S T (n + 1)).dec ty payload ≠ .error .unsupported) (v : Val) :
+    emittedDeserialize S T (recN S T n) ty d payload = .ok v ↔ (recN S T (n + 1)).dec ty payload = .ok v := by
+  have hstep : (recN S T (n + 1)).dec ty payload = decConcrete S T (recN S T n) ty d payload := by
+    show decTypeStep S T (recN S T n) ty payload = _
+    unfold decTypeStep
+    simp only [hfind, hconc, Bool.false_eq_true, if_false]
+  rw [hstep] at hdom ⊢
+  exact emitted_deserialize_iff S T (recN S T n) hwf hwgd ty d hfind (recN_dec_ne_none S T n) ty payload hdom v
+
 /-- the emitted `serialize` and `deserialize` round-trip: for an admissible object that encodes, the emitted
     `deserialize` reads the object back from what the emitted `serialize` returns, also with trailing bytes -/
 theorem emitted_roundtrip (S : Schema) (T : String → Bytes → Bytes) (hwf : WF S = true) (hwg : WFG S = true)
@@ -186,6 +244,74 @@ theorem emitted_roundtrip (S : Schema) (T : String → Bytes → Bytes) (hwf : W
       emittedDeserialize S T (recN S T n) ty d (b ++ tail) = .ok (.struct ty vs) := by
   refine ⟨(emitted_serialize_roundtrip S T hwf hwg ty d hfind hconc vs b n henc hadm hobj).1, ?_⟩
   exact emitted_deserialize_decode S T hwf hwgd ty d hfind hconc n _ _ ((C01.roundtrip (T := T) hwf henc hadm).2 tail)
+
+/-! ### the emitted factories
+
+`<Base>Factory.deserialize`: `parent = Base()`, `Base._deserialize(buffer, parent)`, the dictionary
+`{(Child.C1, Child.C2): Child, …}`, the tuple of the parent's discriminator members, `mapping[discriminator]`, the
+class found deserializes the whole buffer (EmissionFactory.lean: `FactoryAst`, `emittedFactoryDeserialize`). `WFF`: the
+keys the generator writes -- the constants named by the first child's initializers, evaluated on each child -- are the
+discriminator values the layout records for the children. -/
+
+/-- the text of the factory class is the rendering of the abstract factory -/
+theorem factory_text_is_render (S : Schema) (a : String) : factoryClass S a = (emitFactory S a).render :=
+  (render_emitFactory S a).symm
+
+/-- what the interpreter decodes at an abstract type, `<Base>Factory.deserialize` returns -/
+theorem emitted_factory_of_decode (S : Schema) (T : String → Bytes → Bytes) (rec : Rec) (hwf : WF S = true)
+    (hwgd : WFGD S = true) (hwff : WFF S = true) (a : String) (da : StructDef) (hfa : S.find a = some (.struct da))
+    (hab : da.abstract = true) (hnn : ∀ t b v, rec.dec t b = .ok v → v ≠ .none) (payload : Bytes) (v : Val)
+    (hdec : decTypeStep S T rec a payload = .ok v) : emittedFactoryDeserialize S T rec a payload = .ok v :=
+  emittedFactory_of_dec hwf hwgd hwff hfa hab hnn hdec
+
+/-- what `<Base>Factory.deserialize` returns, the interpreter decodes (or refuses as outside its modelled domain) -/
+theorem emitted_factory_sound (S : Schema) (T : String → Bytes → Bytes) (rec : Rec) (hwf : WF S = true)
+    (hwgd : WFGD S = true) (hwff : WFF S = true) (a : String) (da : StructDef) (hfa : S.find a = some (.struct da))
+    (hab : da.abstract = true) (hnn : ∀ t b v, rec.dec t b = .ok v → v ≠ .none) (payload : Bytes) (v : Val)
+    (hem : emittedFactoryDeserialize S T rec a payload = .ok v) :
+    decTypeStep S T rec a payload = .ok v ∨ decTypeStep S T rec a payload = .error .unsupported :=
+  emittedFactory_sound hwf hwgd hwff hfa hab hnn hem
+
+/-- inside the interpreter's domain the two agree -/
+theorem emitted_factory_iff (S : Schema) (T : String → Bytes → Bytes) (rec : Rec) (hwf : WF S = true)
+    (hwgd : WFGD S = true) (hwff : WFF S = true) (a : String) (da : StructDef) (hfa : S.find a = some (.struct da))
+    (hab : da.abstract = true) (hnn : ∀ t b v, rec.dec t b = .ok v → v ≠ .none) (payload : Bytes)
+    (hdom : decTypeStep S T rec a payload ≠ .error .unsupported) (v : Val) :
+    emittedFactoryDeserialize S T rec a payload = .ok v ↔ decTypeStep S T rec a payload = .ok v := by
+  constructor
+  · intro hem
+    rcases emittedFactory_sound hwf hwgd hwff hfa hab hnn hem with h | h
+    · exact h
+    · exact absurd h hdom
+  · exact emittedFactory_of_dec hwf hwgd hwff hfa hab hnn
+
+/-- a discriminator tuple that no child has: the interpreter's `Err.factory` and the emitted `KeyError` -/
+theorem emitted_factory_key_error (S : Schema) (T : String → Bytes → Bytes) (rec : Rec) (hwf : WF S = true)
+    (hwgd : WFGD S = true) (hwff : WFF S = true) (a : String) (da : StructDef) (hfa : S.find a = some (.struct da))
+    (hab : da.abstract = true) (hnn : ∀ t b v, rec.dec t b = .ok v → v ≠ .none) (payload : Bytes) (st : DecState)
+    (hst : decFields S T rec da da.fields payload = .ok st) (disc : List Int)
+    (hdisc : da.disc.mapM (envInt st.env) = .ok disc)
+    (hnone : ((S.children a).filter (fun c => c.2.discValues == disc)).getLast? = none) :
+    decTypeStep S T rec a payload = .error .factory ∧ emittedFactoryDeserialize S T rec a payload = .error .factory :=
+  emittedFactory_keyError hwf hwgd hwff hfa hab hnn hst hdisc hnone
+
+/-- `create_by_name`: the last class registered under the name (`ValueError` = `Err.factory` for an unknown name) -/
+theorem create_by_name_spec (S : Schema) (a : String) (entityName : String) :
+    emittedCreateByName S a entityName =
+      (match ((S.children a).filter (fun c => skipEmbedded (underlineName c.1) == entityName)).getLast? with
+        | some c => .ok c.1
+        | none => .error .factory) := by
+  unfold emittedCreateByName emitFactory
+  simp only [List.filter_map, List.getLast?_map]
+  have hp : ((fun x : String × String => x.1 == entityName) ∘
+      fun x : String × StructDef => (skipEmbedded (underlineName x.1), x.1)) =
+      fun c => skipEmbedded (underlineName c.1) == entityName := rfl
+  rw [hp]
+  cases ((S.children a).filter fun c => skipEmbedded (underlineName c.1) == entityName).getLast? <;> rfl
+
+theorem symbol_wff : WFF Generated.Symbol.schema = true := by decide +kernel
+
+theorem nem_wff : WFF Generated.Nem.schema = true := by decide +kernel
 
 theorem symbol_wfg : WFG Generated.Symbol.schema = true := by decide +kernel
 
@@ -282,6 +408,35 @@ def emittedReads (S : Schema) (v : Val) (tail : Bytes) : Bool :=
 example : emittedReads Generated.Symbol.schema C01.Examples.transfer [7, 7, 7] = true := by decide +kernel
 example : emittedReads Generated.Symbol.schema C01.Examples.aggregate [1] = true := by decide +kernel
 example : emittedReads Generated.Nem.schema (C01.Examples.nemMultisig C01.Examples.nemMsg) [] = true := by decide +kernel
+/-- both refuse: a transfer whose reserved member after the size holds 1 (the emitted `assert`, the interpreter's check) -/
+example :
+    (match Generated.Symbol.schema.find "TransferTransactionV1" with
+      | some (.struct d) =>
+        let r := recN Generated.Symbol.schema C01.Examples.idT (defaultFuel Generated.Symbol.schema)
+        let b := (C01.Examples.bytesOf Generated.Symbol.schema "TransferTransactionV1" C01.Examples.transfer).set 4 1
+        (match emittedDeserialize Generated.Symbol.schema C01.Examples.idT r "TransferTransactionV1" d b,
+            decConcrete Generated.Symbol.schema C01.Examples.idT r "TransferTransactionV1" d b with
+          | .error _, .error _ => true
+          | _, _ => false)
+      | _ => false) = true := by decide +kernel
+
+/-- the factory: a transfer read through `TransactionFactory.deserialize`; with a version no child has in the bytes
+    (offset 108) both give the `KeyError` -/
+example :
+    (let S := Generated.Symbol.schema
+     let r := recN S C01.Examples.idT (defaultFuel S)
+     let b := C01.Examples.bytesOf S "TransferTransactionV1" C01.Examples.transfer
+     (match emittedFactoryDeserialize S C01.Examples.idT r "Transaction" (b ++ [3]) with
+       | .ok v => sameBytes (encode S C01.Examples.idT "TransferTransactionV1" v) (.ok b)
+       | _ => false) &&
+     (match emittedFactoryDeserialize S C01.Examples.idT r "Transaction" (b.set 108 9),
+         decTypeStep S C01.Examples.idT r "Transaction" (b.set 108 9) with
+       | .error .factory, .error .factory => true
+       | _, _ => false) &&
+     (match emittedCreateByName S "Transaction" "transfer_transaction_v1", emittedCreateByName S "Transaction" "nope" with
+       | .ok "TransferTransactionV1", .error .factory => true
+       | _, _ => false)) = true := by decide +kernel
+
 /-- both arms of a union read through the temporary buffer (`duration` / `parent_id` before `registration_type`) -/
 example : emittedReads Generated.Symbol.schema (C01.Examples.nsReg 0) [5, 5] = true ∧
     emittedReads Generated.Symbol.schema (C01.Examples.nsReg 1) [5, 5] = true ∧
